@@ -621,7 +621,11 @@ def run_case(callers, kind, plan, cls="Transport", D=2.0, jitter=None, role="ser
 # ----------------------------------------------------------------------------- ProxyCommand
 
 BRIDGE = r'''
-import os, socket, sys, threading
+import os, signal, socket, sys, threading, time
+def half_close(*a):          # SIGUSR1: close stdout and linger (a relay with half-close semantics)
+    os.close(1)
+    time.sleep(600)
+signal.signal(signal.SIGUSR1, half_close)
 s = socket.socket(socket.AF_UNIX)
 s.connect(sys.argv[1])
 def up():
@@ -656,11 +660,38 @@ def _wait_exit(pid, timeout=5.0):
     return False
 
 
+def _handles_usr1(pid, timeout=10.0):
+    """wait until the process has installed its SIGUSR1 handler (SigCgt of /proc/<pid>/status)"""
+    end = time.time() + timeout
+    while time.time() < end:
+        try:
+            for line in open("/proc/%d/status" % pid):
+                if line.startswith("SigCgt:") and int(line.split()[1], 16) & (1 << (signal.SIGUSR1 - 1)):
+                    return True
+        except OSError:
+            return False
+        time.sleep(0.01)
+    return False
+
+
+def _stdout_closed(pid, timeout=5.0):
+    """wait until the (still running) process has closed its fd 1"""
+    end = time.time() + timeout
+    while time.time() < end:
+        if not os.path.exists("/proc/%d/fd" % pid):
+            return False
+        if not os.path.lexists("/proc/%d/fd/1" % pid):
+            return True
+        time.sleep(0.005)
+    return False
+
+
 class ProxyEnv:
     """client Transport over a real paramiko.ProxyCommand whose helper process bridges stdin/stdout to a unix
-    socket served by a real server Transport; the loss = the helper process is killed"""
-    def __init__(self, callers, plan, cls="Transport"):
-        self.callers, self.plan, self.cls = list(callers), plan, cls
+    socket served by a real server Transport; the loss = the helper process is killed (proxy_exit) or told to
+    close its stdout and linger (proxy_eof: the stream is at end of file, the process is still running)"""
+    def __init__(self, callers, plan, cls="Transport", kind="proxy_exit"):
+        self.callers, self.plan, self.cls, self.kind = list(callers), plan, cls, kind
         self.events, self.elock, self.notes = [], threading.Lock(), []
 
     def log(self, ev):
@@ -723,9 +754,18 @@ class ProxyEnv:
         th.start()
 
     def lose(self):
+        pid = self.pc.process.pid
+        if self.kind == "proxy_eof":
+            if not _handles_usr1(pid):
+                raise RuntimeError("proxy helper has no SIGUSR1 handler")
+            self.log({"ev": "Loss", "kind": "proxy_eof"})
+            os.kill(pid, signal.SIGUSR1)
+            if not _stdout_closed(pid) or self.pc.process.poll() is not None:
+                raise RuntimeError("proxy helper did not close its stdout and linger")
+            return
         self.log({"ev": "Loss", "kind": "proxy_exit"})
-        os.kill(self.pc.process.pid, signal.SIGKILL)
-        if not _wait_exit(self.pc.process.pid):
+        os.kill(pid, signal.SIGKILL)
+        if not _wait_exit(pid):
             self.notes.append("helper process did not exit")
 
     def run(self, D):
@@ -761,7 +801,9 @@ class ProxyEnv:
             self.log({"ev": "Hook", "name": "dead", "by": "other", "active": bool(self.tc.active)})
         self.log({"ev": "Deadline", "active": bool(self.tc.active), "alive": bool(self.tc.is_alive()),
                   "blocked": blocked})
-        obs = {"callers": [list(c) for c in self.callers], "kind": "proxy_exit", "plan": self.plan, "cls": self.cls,
+        if self.kind == "proxy_eof" and self.pc.process.poll() is not None:
+            self.notes.append("the lingering helper exited before the deadline")
+        obs = {"callers": [list(c) for c in self.callers], "kind": self.kind, "plan": self.plan, "cls": self.cls,
                "events": list(self.events), "results": [dict(r) for r in self.results], "blocked": blocked,
                "active": bool(self.tc.active), "established": True, "notes": list(self.notes), "D": D,
                "labels": list(self.labels)}
@@ -801,8 +843,8 @@ class ProxyEnv:
         shutil.rmtree(self.dir, ignore_errors=True)
 
 
-def run_proxy_case(callers, plan, cls="Transport", D=2.0):
-    env = ProxyEnv(callers, plan, cls)
+def run_proxy_case(callers, plan, cls="Transport", D=2.0, kind="proxy_exit"):
+    env = ProxyEnv(callers, plan, cls, kind)
     try:
         return env.run(D)
     except Exception:
@@ -814,7 +856,7 @@ DIRECT = r'''
 import json, os, signal, sys, threading, time
 sys.path.insert(0, %(repo)r)
 import paramiko
-api, mode, plan, D = %(api)r, %(mode)r, %(plan)r, %(D)r
+api, mode, plan, D, kind = %(api)r, %(mode)r, %(plan)r, %(D)r, %(kind)r
 ev = []
 p = paramiko.ProxyCommand(%(cmd)r)
 p.settimeout(%(T)r if mode == "timed" else None)
@@ -830,9 +872,27 @@ def call():
     ev.append({"ev": "Return", "w": 1, "how": res["how"], "active": False})
 th = threading.Thread(target=call, daemon=True)
 def lose():
-    ev.append({"ev": "Loss", "kind": "proxy_exit"})
-    os.kill(p.process.pid, signal.SIGKILL)
-    os.waitid(os.P_PID, p.process.pid, os.WEXITED | os.WNOWAIT)
+    pid = p.process.pid
+    if kind == "proxy_eof":      # the helper closes its stdout and lingers
+        end = time.time() + 10
+        while time.time() < end:
+            cgt = [l for l in open("/proc/%%d/status" %% pid) if l.startswith("SigCgt:")][0]
+            if int(cgt.split()[1], 16) & (1 << (signal.SIGUSR1 - 1)):
+                break
+            time.sleep(0.01)
+        else:
+            raise SystemExit("helper has no SIGUSR1 handler")
+        ev.append({"ev": "Loss", "kind": "proxy_eof"})
+        os.kill(pid, signal.SIGUSR1)
+        end = time.time() + 5
+        while os.path.lexists("/proc/%%d/fd/1" %% pid) and time.time() < end:
+            time.sleep(0.005)
+        if os.path.lexists("/proc/%%d/fd/1" %% pid) or p.process.poll() is not None:
+            raise SystemExit("helper did not close its stdout and linger")
+    else:
+        ev.append({"ev": "Loss", "kind": "proxy_exit"})
+        os.kill(pid, signal.SIGKILL)
+        os.waitid(os.P_PID, pid, os.WEXITED | os.WNOWAIT)
     ev.append({"ev": "Hook", "name": "dead", "by": "other", "active": False})
 if plan == "before":
     th.start(); time.sleep(0.3)
@@ -844,24 +904,32 @@ else:
 th.join(D)
 blocked = [1] if th.is_alive() else []
 ev.append({"ev": "Deadline", "active": False, "alive": False, "blocked": blocked})
-print("C13JSON" + json.dumps({"events": ev, "results": [res], "blocked": blocked}), flush=True)
+lingers = (kind != "proxy_eof") or p.process.poll() is None
+print("C13JSON" + json.dumps({"events": ev, "results": [res], "blocked": blocked, "lingers": lingers}), flush=True)
+try:
+    p.process.kill()
+except Exception:
+    pass
 os._exit(0)
 '''
 
 
-def run_direct_proxy(api, mode, plan, D=2.0, T=0.5):
+def run_direct_proxy(api, mode, plan, D=2.0, T=0.5, kind="proxy_exit"):
     """ProxyCommand.recv / send called directly around a helper that just sleeps; runs in a subprocess because
     the pinned recv() never comes back (it spins) when no timeout is set"""
     import json
     cmd = "%s -c 'import time; time.sleep(600)'" % PY
+    if kind == "proxy_eof":
+        cmd = "%s -c 'import os, signal, time; signal.signal(signal.SIGUSR1, lambda *a: os.close(1)); time.sleep(600)'" % PY
     code = DIRECT % {"repo": os.environ.get("VERIF_REPO", "/repo"), "api": api, "mode": mode, "plan": plan,
-                     "D": D, "cmd": cmd, "T": T}
+                     "D": D, "cmd": cmd, "T": T, "kind": kind}
     p = subprocess.run([PY, "-c", code], stdout=subprocess.PIPE, stderr=subprocess.PIPE, timeout=D + 60, text=True)
     for line in p.stdout.splitlines():
         if line.startswith("C13JSON"):
             o = json.loads(line[7:])
-            o.update({"callers": [[api, mode]], "kind": "proxy_exit", "plan": plan, "cls": "ProxyCommand",
-                      "active": False, "established": True, "notes": [], "D": D,
+            o.update({"callers": [[api, mode]], "kind": kind, "plan": plan, "cls": "ProxyCommand",
+                      "active": False, "established": True,
+                      "notes": [] if o.pop("lingers", True) else ["the lingering helper exited before the deadline"], "D": D,
                       "labels": ["before" if plan == "before" else "after"]})
             return o
     raise RuntimeError("direct ProxyCommand helper failed: %s" % p.stderr[-500:])
